@@ -2849,7 +2849,7 @@ private:
             ps.error_stream << ps.current_sp << " PARSE: Shift to " << new_cursor_value << ", term: " << term_names[error_recovery_token_idx] << "\n";
         ps.cursor_stack.push_back(new_cursor_value);
 
-        ps.value_stack.emplace_back(term_value(no_type{}, ps.current_sp));
+        ps.value_stack.emplace_back(no_type{});
     }
 
     template<typename ParseState>
